@@ -70,6 +70,14 @@ def check_cell(part, uc, params, how, case, frame_free=False):
     back = uc.to_fractional(cart)
     bad("roundtrip", np.abs(back - PTS).max() / 10.0, "to_fractional(to_cartesian(x)) != x")
     bad("to_cartesian", np.abs(cart - PTS @ D).max() / (10 * scale), "to_cartesian is not x @ direct")
+    # one position: as a bare (3,) vector, as a (1,3) array, as a list of three numbers - the same point
+    try:
+        one_c = [np.asarray(uc.to_cartesian(v), dtype=float).reshape(-1) for v in (PTS[1], PTS[1:2], list(PTS[1]))]
+        one_f = [np.asarray(uc.to_fractional(v), dtype=float).reshape(-1) for v in (cart[1], cart[1:2], list(cart[1]))]
+        bad("single-position", max(max(np.abs(v - PTS[1] @ D).max() for v in one_c) / (10 * scale), max(np.abs(v - PTS[1]).max() for v in one_f) / 10.0),
+            "to_cartesian / to_fractional of ONE position (given as a (3,) vector, a (1,3) array or a list) differ from the same row of an (N,3) array")
+    except Exception as e:
+        part.fail("single-position-raise:%s" % key, "to_cartesian / to_fractional of one position raised %r (cell built via %s)" % (e, how), case)
     # row norms / angles = reported parameters
     ln = np.linalg.norm(D, axis=1)
     bad("lengths", np.abs(ln - np.array([a, b, c])).max() / scale, "lattice-vector lengths differ from a, b, c")
